@@ -68,6 +68,10 @@ func runC17(c *Ctx) {
 		k := testkeys.RSAWithExponent(e)
 		keys = append(keys, c17key{name: fmt.Sprintf("rsa-2048-e=%d", e), signer: k, pub: &k.PublicKey, family: "rsa", rsaBits: 2048})
 	}
+	{
+		mp := testkeys.RSAMultiPrime() // three prime factors: as valid an RSA key as any
+		keys = append(keys, c17key{name: "rsa-2048-three-primes", signer: mp, pub: &mp.PublicKey, family: "rsa", rsaBits: 2048})
+	}
 	for _, cv := range []elliptic.Curve{elliptic.P224(), elliptic.P256(), elliptic.P384(), elliptic.P521()} {
 		k := gen.ECKey(cv, r)
 		ok := cv != elliptic.P224()
@@ -185,6 +189,8 @@ func runC17(c *Ctx) {
 		// an RSA key behind an opaque crypto.Signer (HSM / KMS wrapper): still PSS with the hash-length salt
 		wk := testkeys.RSA(2048)
 		pairs = append(pairs, pairing{a, refcrypto.WrapSigner{K: wk}, &wk.PublicKey, "wrapped-rsa-2048"})
+		mp := testkeys.RSAMultiPrime()
+		pairs = append(pairs, pairing{a, mp, &mp.PublicKey, "rsa-2048-three-primes"})
 	}
 	for _, a := range []cose.Algorithm{cose.AlgorithmES256, cose.AlgorithmES384, cose.AlgorithmES512} {
 		// every algorithm with every supported curve (the library does not tie the hash to the curve)
